@@ -153,6 +153,34 @@ def compare(ctx, name, bodies, st, res):
     return False
 
 
+def long_paths(ctx):
+    """C[AD]+R / SET_C[AD]+R with paths far beyond what the TLC universe holds (5..40 letters; seeded C19_13 unrolled paths in blocks of 16).  The meaning is the
+    model's rule stated directly - follow the letters, A = left component, D = right component - on a tree whose siblings along the path are all distinct."""
+    import random
+    rnd = random.Random(19)
+    n = 0
+    for length in (5, 7, 8, 9, 15, 16, 17, 18, 24, 31, 32, 33, 34, 40):
+        ps = {'A' * length, 'D' * length, ('AD' * length)[:length], ('DDA' * length)[:length]}
+        while len(ps) < 7:
+            ps.add(''.join(rnd.choice('AD') for _ in range(length)))
+        for path in sorted(ps):
+            def build(k, leaf):
+                if k == len(path):
+                    return INT, leaf
+                t, v = build(k + 1, leaf)
+                return (P(t, INT), p(v, i(-(k + 1)))) if path[k] == 'A' else (P(INT, t), p(i(-(k + 1)), v))
+            t, v = build(0, i(1000))
+            _, v2 = build(0, i(2000))
+            rest = S(STR, s('c'))
+            for name, st, res in (('C%sR' % path, (S(t, v), rest), ('ok', (S(INT, i(1000)), rest))),
+                                  ('SET_C%sR' % path, (S(t, v), S(INT, i(2000)), rest), ('ok', (S(t, v2), rest)))):
+                compare(ctx, name, (), st, res)
+                ctx.replayed += 1
+                ctx.count((name, st), nontrivial=True)
+                n += 1
+    ctx.extra['long_path_macros'] = n
+
+
 def run(ctx):
     ctx.rule = ('every macro of the generated universe (6 comparison operators x CMP/IF/IFCMP/ASSERT_/ASSERT_CMP; FAIL, ASSERT, ASSERT_NONE/SOME/LEFT/RIGHT, IF_SOME, IF_RIGHT; '
                 'DII..P and DUU..P depth 2..4(5); every PAIR tree with 2..4 (6) leaves and its UNPAIR; every C[AD]+R / SET_C[AD]+R / MAP_C[AD]+R path of length 1..3 (4)) on every '
@@ -181,6 +209,7 @@ def run(ctx):
     if len(kinds) < len({m_[0] for m_ in ms}):
         raise Exception('vacuity: too few macro kinds exported')
     ctx.extra['macro_names'] = len(kinds)
+    long_paths(ctx)
     ctx.second_pass()
     ctx.exhaustive = True
 
@@ -200,6 +229,6 @@ META = {
              'on the typed stack of the reference semantics, not by expansion. TLC evaluates every macro of the universe on its stack pool and checks the laws between macros; '
              'each case is replayed by feeding the macro text to the pytezos parser/expander and executing the expansion, comparing the stack or failure.'),
     'design_ref': 'DESIGN.md section 5 C19, A.11',
-    'note': 'Trusted: my reading of the macro definitions of the Michelson reference, MichSem.tla, terms.py. Bounds: PAIR trees <= 5 (6) leaves, paths <= 3 (4), DII..P / DUU..P depth <= 4 (5).',
+    'note': 'Trusted: my reading of the macro definitions of the Michelson reference, MichSem.tla, terms.py. Bounds: PAIR trees <= 5 (6) leaves, paths <= 3 (4), DII..P / DUU..P depth <= 4 (5); plus 196 C[AD]+R / SET_C[AD]+R paths of 5..40 letters run against the direct meaning.',
     'technique': 'TLA+ direct macro semantics + TLC law checking; exhaustive replay through the pytezos parser, macro expander and interpreter',
 }
